@@ -93,6 +93,7 @@ type MScenario struct {
 	Peers     []string `json:"peers"`
 	Hashes    []string `json:"hashes"`
 	Blacklist bool     `json:"enable_blacklisting"`
+	NoCompare bool     `json:"nocompare"` // --replay of a recorded walk: only the actions are known; monitors decide
 	Steps     []struct {
 		A MMAct   `json:"a"`
 		T MMState `json:"t"`
@@ -764,8 +765,10 @@ func runManagerWitness(rep *vh.Report, sc MScenario) {
 				return
 			}
 			if preq != nil {
+				rm.dones[*preq] = pdone
 				for _, r := range st.T.Reqs {
 					if r.Peer == preq.Peer && r.Hash == preq.Hash {
+						delete(rm.dones, *preq)
 						rm.dones[r] = pdone
 					}
 				}
@@ -773,6 +776,9 @@ func runManagerWitness(rep *vh.Report, sc MScenario) {
 			post := rm.snapshot()
 			rm.monitorNodes(rep, post, replayObj)
 			out["steps"] = i + 1
+			if sc.NoCompare {
+				continue
+			}
 			if normRet(st.A.Ret) != normRet(json.RawMessage(ret)) {
 				out["diverged"] = fmt.Sprintf("step %d %s(%s): real result %s, unfixed model %s", i, st.A.Act, st.A.Arg, ret, st.A.Ret)
 				return
